@@ -1,5 +1,5 @@
 /-
-  ICG.Lemmas.NormFacts — helper lemmas for C15 / C10: sums over the members of a bit mask, the generic
+  ICG.Lemmas.NormFacts — (everything in namespace `ICG.Norm`) helper lemmas for C15 / C10: sums over the members of a bit mask, the generic
   "independent row updates" fold on a table, `itertools.combinations(·, 2)`.
 -/
 import ICG.Model.Normalize
@@ -10,8 +10,8 @@ import Mathlib.Algebra.Order.BigOperators.Group.Finset
 import Mathlib.Algebra.Order.Field.Basic
 import Mathlib.Tactic.Linarith
 
-namespace ICG
-open Finset
+namespace ICG.Norm
+open ICG Finset
 
 variable {α : Type}
 
@@ -121,12 +121,7 @@ theorem exists_testBit_of_ne_zero {c : Nat} (h : c ≠ 0) : ∃ i, c.testBit i =
   simp at this
   simp [this]
 
-theorem grand_lt (n : Nat) : grand n < 2 ^ n := by
-  unfold grand
-  have := Nat.two_pow_pos n
-  omega
-
-theorem sub_grand {c n : Nat} (hc : c < 2 ^ n) : c &&& grand n = c := by
+theorem sub_grand_mask {c n : Nat} (hc : c < 2 ^ n) : c &&& grand n = c := by
   apply sub_of_testBit
   intro i hi
   rw [testBit_grand]
@@ -142,7 +137,6 @@ theorem players_two_pow (i : Nat) : players (2 ^ i) = [i] := by
 
 /-! ### `itertools.combinations(l, 2)` -/
 
-namespace Norm
 
 theorem mem_pairs {β} {l : List β} {p : β × β} {r : β → β → Prop} (hl : l.Pairwise r) (hp : p ∈ pairs l) :
     p.1 ∈ l ∧ p.2 ∈ l ∧ r p.1 p.2 := by
@@ -168,7 +162,6 @@ theorem pairs_eq_combos {β} (l : List β) : (pairs l).map (fun p => [p.1, p.2])
     simp only [pairs, combos, List.map_append, List.map_map, ih, h1]
     congr 1
 
-end Norm
 
 /-! ### a loop of independent row updates on a table -/
 
@@ -238,4 +231,4 @@ theorem foldlM_rows (step : Table α → Nat → Except Err (Table α)) (G : Nat
 
 end rows
 
-end ICG
+end ICG.Norm
